@@ -41,7 +41,7 @@ from acnportal.algorithms import (
     least_laxity_first,
 )
 
-from .obs import patched_normal
+from .obs import NoiseFeed
 
 SORTS = {
     "fcfs": first_come_first_served,
@@ -73,6 +73,9 @@ def make_evse(s):
     raise ValueError(k)
 
 
+_EVSES = {}  # id(network) -> {station id: EVSE object}; filled by build_network, read by Handle
+
+
 def build_network(spec, cls=ChargingNetwork, station_order=None, constraint_order=None):
     kw = {}
     if "net_vtol" in spec:
@@ -81,11 +84,14 @@ def build_network(spec, cls=ChargingNetwork, station_order=None, constraint_orde
     stations = spec["stations"]
     if station_order is not None:
         stations = [stations[i] for i in station_order]
-    net.evse_objs = {}
+    evses = {}
     for s in stations:
         evse = make_evse(s)
-        net.evse_objs[s["id"]] = evse  # handed in by us, so readable without private access
+        evses[s["id"]] = evse  # handed in by us, so readable without private access
         net.register_evse(evse, s["voltage"], s["phase"])
+    if isinstance(net, TraceNetwork):
+        net.evse_objs = evses
+    _EVSES[id(net)] = evses
     cons = spec["constraints"]
     if constraint_order is not None:
         cons = [cons[i] for i in constraint_order]
@@ -293,6 +299,9 @@ def make_scheduler(spec, observer=None, crash_at=None, shift=0):
 class Handle:
     def __init__(self, spec, sim, net, evs, scheduler):
         self.spec, self.sim, self.net, self.evs, self.scheduler = spec, sim, net, evs, scheduler
+        self.evses = _EVSES.pop(id(net), {})
+        # the noise draws continue across interrupted / resumed run() calls
+        self.feed = NoiseFeed(spec.get("zs") or [0.0])
 
 
 def build_sim(spec, observer=None, crash_at=None, shift=0, net_cls=ChargingNetwork, scheduler=None, station_order=None, constraint_order=None, event_order=None, signals=None):
@@ -316,10 +325,14 @@ def build_sim(spec, observer=None, crash_at=None, shift=0, net_cls=ChargingNetwo
 
 def run_sim(h):
     """Run with the battery noise fed from the spec."""
-    with patched_normal(h.spec.get("zs") or [0.0]):
+    orig = np.random.normal
+    np.random.normal = h.feed
+    try:
         with warnings.catch_warnings():
             warnings.simplefilter("ignore")
             h.sim.run()
+    finally:
+        np.random.normal = orig
     return h
 
 
